@@ -33,18 +33,18 @@ theorem lookLevels_replicate_nil (k : Key) (n : Nat) : lookLevels k (List.replic
 theorem pcCons_self {pc : Pc} (h : pc.isStart = true) : PcCons pc pc := by
   cases pc <;> simp [Pc.isStart] at h <;> simp [PcCons]
 
-theorem linv_init {cfg : Cfg} {y : Sys} (h : InitSys cfg y) (h2 : 2 ≤ cfg.maxLevels) (hn : (y.frames.map (·.id)).Nodup) :
-    LInv cfg (startOf y.frames) y [] := by
+theorem linv_init {cfg : Cfg} {y : Sys} (h : InitSys cfg y) (h2 : 2 ≤ cfg.maxLevels) (hn : (y.frames.map (·.id)).Nodup)
+    (start : Nat → Pc) (hstart : ∀ f ∈ y.frames, start f.id = f.pc) : LInv cfg start y [] := by
   refine ⟨sysInv_init h h2, hn, ?_, ?_, ?_, fun e he => (by cases he), fun e he => (by cases he), List.Pairwise.nil, List.nodup_nil⟩
   · intro f hf
     obtain ⟨hs, hb, he⟩ := h.frames f hf
-    have hst := startOf_mem hn hf
+    have hst := hstart f hf
     obtain ⟨d1, d2, d3⟩ := isStart_not_done hs
     refine ⟨(by rw [hst]; exact pcCons_self hs), fun _ => ⟨hst.symm, he⟩, fun b hb' => (by rw [hb] at hb'; cases hb'),
       fun e he' => (by rw [he] at he'; cases he'), fun hd => (by rw [d1] at hd; cases hd), fun _ e he' => (by cases he'),
       fun ha => (by rw [d2] at ha; cases ha), fun q hq => (by rw [d3] at hq; cases hq)⟩
   · intro f hf
-    rw [startOf_mem hn hf]; exact (h.frames f hf).1
+    rw [hstart f hf]; exact (h.frames f hf).1
   · intro k
     obtain ⟨oracle, hst⟩ := h.st
     rw [hst]
